@@ -24,6 +24,26 @@ def _timed(s):
     return time.time() - t0
 
 
+BUDGET_S = 40
+
+
+def _timed_budget(s):
+    """conversion time measured inside a fresh interpreter that is killed after BUDGET_S seconds (for inputs that may not come back)"""
+    import json as _json
+    import subprocess
+    import sys as _sys
+    from common import REPO
+    code = ("import sys, time, json\nsys.path.insert(0, %r)\nfrom glyles import convert\ns = json.loads(sys.stdin.read())\n"
+            "t0 = time.time()\nconvert(glycan_list=[s, 'Glc'], verbose=None)\nprint(json.dumps(time.time() - t0))\n") % REPO
+    try:
+        p = subprocess.run([_sys.executable, "-c", code], input=_json.dumps(s), capture_output=True, text=True, timeout=BUDGET_S)
+        return float(_json.loads(p.stdout.strip().split("\n")[-1]))
+    except subprocess.TimeoutExpired:
+        return float("inf")
+    except Exception:
+        return -1.0
+
+
 def strip(x):
     return x.strip() if isinstance(x, str) else x
 
@@ -157,6 +177,25 @@ def run(rep, tier, driver):
                 rep.violation("input", {"iupac": d[4][1], "family": f}, {"seconds": d[4][0], "ratio_on_doubling": [r, again]},
                               "polynomial growth (time ratio on doubling the input <= 16)", key="slow:" + f)
     rep.extra["time_ratio_on_last_doubling"] = growth
+    # inputs the lexer cannot tokenise (control characters - an unsplit table line 'glycan<TAB>name', a stray escape sequence) behind
+    # more and more text: each conversion runs in its own interpreter with a budget of BUDGET_S seconds
+    ctrl = []
+    for f, mk in [("tsv-line", lambda k: "Man(a1-2)" * k + "Man\tsome name"), ("soup-bel", lambda k: apigen.soup(rng, vocab, 6 * k)[:9 * k] + "\x07"),
+                  ("plain-text-esc", lambda k: "GlcNAcManGal" * k + "\x1b[0m"), ("ctrl-in-front", lambda k: "\x07" + "Man(a1-2)" * k + "Man"),
+                  ("name-nul", lambda k: "Neu5Ac" * k + "\x00" + "Gal")]:
+        for k in (2, 4, 8, 30):
+            ctrl.append((f, k, mk(k)))
+    ctimes = pmap(_timed_budget, [x for _, _, x in ctrl], chunk=1)
+    rep.extra["timing_control_characters_s"] = [{"family": f, "k": k, "length": len(x), "seconds": (round(t, 3) if t != float("inf") else "timeout")}
+                                                 for (f, k, x), t in zip(ctrl, ctimes)]
+    for (f, k, x), t in zip(ctrl, ctimes):
+        rep.case(canon=["timing-ctrl", f, k], nontrivial=False)
+        rep.count("timing-control-characters")
+        if t == float("inf"):
+            rep.violation("input", {"iupac": x, "family": f}, {"seconds": "> %d (killed)" % BUDGET_S},
+                          "a failing input is answered in time polynomial in its length (this one has %d characters)" % len(x), key="slow:%s:%d" % (f, k))
+        elif t < 0:
+            rep.broken.append("timing run failed for family %s" % f)
 
 
 def _spec_false(x):
